@@ -11,7 +11,7 @@
 (*      violations.  Records are appended with CSVWrite inside the step    *)
 (*      that consumes the observation.                                     *)
 (***************************************************************************)
-EXTENDS Jen, Json, CSV
+EXTENDS Jen, JenGuess, Json, CSV
 
 CONSTANTS TraceFile, VFile
 Trace == ndJsonDeserialize(TraceFile)
@@ -31,8 +31,12 @@ Init == /\ l = 1 /\ tid = 0 /\ cf = NoCf /\ hints = <<>> /\ imps = <<>> /\ body 
 New ==
   /\ IsEv("New")
   /\ tid' = E.trace
-  /\ cf' = [local |-> E.local, prefix |-> E.prefix, preamble |-> E.preamble, predoc |-> E.predoc, headers |-> E.headers, comments |-> E.comments, canonicalq |-> E.canonicalq, paths |-> E.paths,
+  \* the alias guess of every path is computed by the specification (JenGuess) from the path's code points;
+  \* the recorder's own guess only serves to flag a disagreement between the two
+  /\ cf' = [local |-> E.local, prefix |-> E.prefix, preamble |-> E.preamble, predoc |-> E.predoc, headers |-> E.headers, comments |-> E.comments, canonicalq |-> E.canonicalq,
+            paths |-> [p \in DOMAIN E.paths |-> [E.paths[p] EXCEPT !.guess = Guess(E.paths[p].lower)]],
             sorted |-> E.sorted, pkgname |-> E.pkgname]
+  /\ \A p \in DOMAIN E.paths : Guess(E.paths[p].lower) # E.paths[p].guess => Report("DRIFT", "guess " \o p)
   /\ hints' = <<>> /\ imps' = <<>> /\ body' = <<>> /\ bound' = <<>> /\ claims' = <<>> /\ anons' = {}
   /\ dirty' = TRUE /\ last' = ""
 
